@@ -399,8 +399,13 @@ impl ScionPath {
             if rpc_path.latency.len() == expected_count_links {
                 for (meta, latency) in interface_meta.iter_mut().zip(rpc_path.latency.into_iter()) {
                     // A negative latency indicates that no latency is supplied, so we treat it as
-                    // None
-                    meta.latency = latency.try_into().ok();
+                    // None. Negative seconds are not handed to the conversion: it negates the
+                    // normalized value to report the error, which overflows for i64::MIN.
+                    meta.latency = if latency.seconds < 0 {
+                        None
+                    } else {
+                        latency.try_into().ok()
+                    };
                 }
             }
 
